@@ -360,6 +360,13 @@ def run(ctx):
         from .segpred import check_segmentation
 
         check_segmentation(ctx, "R5", "R5")
+    from .apiplumb import check_required_operation
+
+    ctx.rule("R8", "the required attributes checked are those of the operation that writes the file", "dump_many checks dump_one's list (or the reverse): an object lacking an attribute the writer needs passes the pre-flight")
+    check_required_operation(ctx, "R8")
+    from .apiplumb import check_many_required
+
+    check_many_required(ctx, "R8")
     ctx.rule("R7", "variants a writer does not implement are rejected by its pre-flight (evaluated)", "an object the writer can only answer with 'not implemented' gets past the pre-flight: the target file is truncated before the failure")
     check_unimplemented_variants(ctx, "R7")
 
